@@ -26,6 +26,13 @@ PROPS = {
                    'units with $ substitution'],
         bounded=[DT_BOUNDED('C03')],
     ),
+    'C04': dict(
+        contract_files=['contracts/node.py'],
+        level='proof',
+        trusted_base=COMMON_TRUSTED + ['interface contracts of datatypes (proved per class under C01/C02)',
+                                       'SecNode.get_module contract (C15)'],
+        uncovered=['generated module classes are abstracted by symbolic accessible tables (ModInv)'],
+    ),
     'C02': dict(
         contract_files=['contracts/datatypes.py'],
         level='proof',
